@@ -18,25 +18,34 @@ Import ListNotations.
 Open Scope N_scope.
 
 (** every kind (text, comment, CDATA, merged read-only view), every data string that fits in
-    memory, every operation, every usize offset and count, every argument the node kind can
-    hold: the code returns what DOM Level 1 prescribes and leaves the prescribed data *)
+    memory, every operation, every usize offset and count, every argument: whenever the string the
+    node would hold after the call can be the content of such a node ([call_storable]: the
+    RESULT, not the fragment -- a harmless fragment can complete a forbidden sequence and a
+    deletion can create one), the code returns what DOM Level 1 prescribes and leaves the
+    prescribed data.  (Before the repairs D39 / D46 of properties C13 / C15 the code validated
+    the inserted fragment only; the hypothesis was then "the argument is storable".) *)
 Theorem C16_chardata_refines : forall k s op off cnt arg,
-  off < 2 ^ 64 -> cnt < 2 ^ 64 -> len s < 2 ^ 64 -> storable k arg = true ->
+  off < 2 ^ 64 -> cnt < 2 ^ 64 -> len s < 2 ^ 64 -> call_storable k (St s []) (mk_call op off cnt arg) = true ->
   model_cd k s op off cnt arg = embed (spec_cd k s op off cnt arg).
 Proof. exact chardata_refines. Qed.
 
 (** the same from any state (the node may already have following siblings from earlier splits) *)
 Theorem C16_call_refines : forall k st c,
-  len (data st) <= usize_max -> usize_args c -> call_storable k c = true ->
+  len (data st) <= usize_max -> usize_args c -> call_storable k st c = true ->
   model_call k st c = embed (dom_call k st c).
 Proof. exact call_refines. Qed.
 
 (** sequences of calls: every observation of every history agrees *)
 Theorem C16_history_refines : forall k cs st,
-  len (data st) + args_len cs <= usize_max ->
-  Forall (fun c => usize_args c /\ call_storable k c = true) cs ->
+  len (data st) + args_len cs <= usize_max -> run_ok k st cs ->
   model_run k st cs = map embed (dom_run k st cs).
 Proof. exact run_refines. Qed.
+
+(** a call that is refused or raises leaves the data as they were (D39 repaired) *)
+Theorem C16_refused_call_keeps_data : forall k st c st',
+  len (data st) <= usize_max -> usize_args c ->
+  (model_call k st c = MInvalidArg st' \/ exists e, model_call k st c = MRaised e st') -> st' = st.
+Proof. exact refused_call_keeps_data. Qed.
 
 (** split_text: the two halves concatenate to the original, the first has min(offset, length)
     characters, the new node is the next sibling *)
@@ -85,6 +94,7 @@ Proof. exact pinned_release_refuted. Qed.
 Print Assumptions C16_chardata_refines.
 Print Assumptions C16_call_refines.
 Print Assumptions C16_history_refines.
+Print Assumptions C16_refused_call_keeps_data.
 Print Assumptions C16_split_concat.
 Print Assumptions C16_split_preserves_text.
 Print Assumptions C16_no_panic.
